@@ -3,30 +3,40 @@ C01 — acceptance is run semantics; determinise / ε-removal / copy keep the la
 have the advertised shape.  Property theorems only (helper lemmas live in Pfl/Proofs).
 -/
 import Pfl.Proofs.FABase
+import Pfl.Proofs.FADet
 namespace Pfl
 namespace ENFA
 variable {σ κ : Type} [DecidableEq σ] [DecidableEq κ]
 
-/-- the naming function separates different sets of states -/
-def KeyInj (A : ENFA σ) (key : List σ → κ) : Prop :=
-  ∀ S T : List σ, (∀ q ∈ S, q ∈ A.states) → (∀ q ∈ T, q ∈ A.states) →
-    key S = key T → ∀ q, q ∈ S ↔ q ∈ T
+/- `KeyInj A key` (the naming function separates different sets of states) is defined in
+`Pfl/Proofs/FADet.lean`:
+  ∀ S T, (∀ q ∈ S, q ∈ A.states) → (∀ q ∈ T, q ∈ A.states) → key S = key T → ∀ q, q ∈ S ↔ q ∈ T -/
 
 /-- subset construction with ε-closure (`EpsilonNFA.to_deterministic`) -/
 theorem toDet_lang (A : ENFA σ) (h : A.WF) (key : List σ → κ) (hk : A.KeyInj key)
     (fuel : Nat) (D : ENFA κ) (hD : A.toDet key true fuel = some D) (w : List Nat) :
     D.Lang w ↔ A.Lang w := by
-  sorry
+  rw [toDet_lang_fold A h key hk true fuel D hD w, lang_iff_evalE, foldl_stepSet_true]
+  rfl
 
 /-- subset construction without closure (`NondeterministicFiniteAutomaton.to_deterministic`) -/
 theorem toDet_lang_noEps (A : ENFA σ) (h : A.WF) (he : A.EpsFree) (key : List σ → κ)
     (hk : A.KeyInj key) (fuel : Nat) (D : ENFA κ) (hD : A.toDet key false fuel = some D)
     (w : List Nat) : D.Lang w ↔ A.Lang w := by
-  sorry
+  rw [toDet_lang_fold A h key hk false fuel D hD w, lang_iff_evalE]
+  have hmem : ∀ q, q ∈ A.detStart false ↔ q ∈ A.ecloseL A.starts := by
+    intro q
+    rw [mem_ecloseL_of_epsFree A he]
+    simp only [detStart, Bool.false_eq_true, if_false, List.mem_eraseDups]
+  constructor
+  · rintro ⟨f, hf, hm⟩; exact ⟨f, hf, (foldl_stepSet_false A he w hmem f).mp hm⟩
+  · rintro ⟨f, hf, hm⟩; exact ⟨f, hf, (foldl_stepSet_false A he w hmem f).mpr hm⟩
 
 theorem toDet_shape (A : ENFA σ) (key : List σ → κ) (useE : Bool) (fuel : Nat) (D : ENFA κ)
     (hD : A.toDet key useE fuel = some D) : D.Deterministic ∧ D.EpsFree := by
-  sorry
+  obtain ⟨seen, hs, rfl⟩ := toDet_eq A key useE fuel D hD
+  exact ⟨detOf_deterministic A key useE seen (detSeen_inj A key useE fuel seen hs),
+    detOf_epsFree A key useE seen⟩
 
 end ENFA
 end Pfl
